@@ -261,6 +261,8 @@ def _chunk_job(args):
     (modname, pid, tier, master, indices, deadline, opts) = args
     world = _WORLD if (_WORLD is not None and _WORLD.__name__ == modname) else _load_world(modname)
     faulthandler.enable()
+    import warnings
+    warnings.simplefilter("ignore")
     agg = {"evaluations": 0, "faults": {}, "probes": {}, "states": {}, "digests_nt": set(),
            "digests_all": 0, "steps": 0, "sim_time": 0.0, "samples": [], "bad": [],
            "harness": [], "nontrivial": 0, "gen_fail": 0}
@@ -395,6 +397,8 @@ def replay_in_fresh_interpreter(pid, path, timeout=300):
 
 
 def run_replay(world, pid, path, quiet=False):
+    import warnings
+    warnings.simplefilter("ignore")
     with open(path) as f:
         plan = json.load(f)
     want = plan.get("violation")
@@ -429,6 +433,8 @@ def run_batch(modname, pid, tier, master, stages, workers, level="exploration",
     stage (each stops at its wall cap), minimises and reports violations,
     writes evidence.  Returns the process exit code."""
     t0 = time.time()
+    import warnings
+    warnings.simplefilter("ignore")
     use_repo()
     world = _load_world(modname)          # imported in the parent: forked workers share it
     if hasattr(world, "warm_up"):
@@ -511,6 +517,9 @@ def run_batch(modname, pid, tier, master, stages, workers, level="exploration",
             unknown.append((key, c))
     violations_reported = 0
     minimised_examples = []
+    focus = os.environ.get("VERIF_FOCUS")
+    if focus:
+        unknown.sort(key=lambda kc: (0 if all(f in kc[0] for f in focus.split("&")) else 1, kc[0]))
     for key, c in unknown[:6]:
         if not c["plans"]:
             continue
